@@ -45,6 +45,7 @@ def gen(rng, tier, i):
     sc.net["chaos"] = chaos
     sc.net["spawn_yield"] = rng.choice([0, 300])
     sc.net["lock_yield"] = rng.choice([0, 0, 300])   # seeded scheduling points at the asynchronous locks
+    sc.net["udp_port_reuse"] = rng.choice([0, 0, 0, 300])   # the kernel's automatic port choice landing on a port another SO_REUSEADDR socket holds
     sc.cfg["timeouts"] = {"idle": 30, "udp": 30}
     inject = rng.random() < 0.12
     # origins
